@@ -101,6 +101,9 @@ def define(n, formals=None, body=None):
 # ---------------------------------------------------------------------------------------------
 # rendering
 
+_CUR_NL = "\n"
+
+
 def render_btoks(toks):
     """body tokens -> text. Tokens are separated by one blank except around `` (paste) and where g."""
     s = ""
@@ -120,7 +123,7 @@ def render_btoks(toks):
         elif k == "bqs":
             x = '`"' + "".join(p["n"] for p in t["a"]) + '`"'
         elif k == "cont":
-            x = "\\\n"
+            x = "\\" + _CUR_NL           # line continuation, written with the line end of the file being rendered
         elif k == "lcmt":
             x = "// " + t["n"]
         elif k == "pos":
@@ -208,6 +211,8 @@ EMITTING = ("tok", "str", "kept", "def", "undef", "undefall")
 
 def render_file(items, blank=" ", nl="\n"):
     """Renders the items, filling off/ln/ln2/ts/to. Returns the text.  nl: how a line break item is written (LF / CRLF)."""
+    global _CUR_NL
+    _CUR_NL = nl
     out = []
     pos_b = 0
     line = 1
@@ -229,6 +234,7 @@ def render_file(items, blank=" ", nl="\n"):
         out.append(t)
         pos_b += len(t.encode())
         prev = it
+    _CUR_NL = "\n"
     return "".join(out)
 
 
